@@ -242,11 +242,14 @@ pub fn c18_dedent(c: &StrCase) -> Outcome {
         return Err(format!("{}not idempotent: dedent({:?}) = {:?}, again = {:?}", class, s, got, twice));
     }
     if !s.contains('\r') {
-        for p in [" ", "\t", "  \t"] {
+        // whitespace prefixes: blanks, a carriage return, non-ASCII whitespace — and, last, prefixes that contain a line break, for which the
+        // statement is false of the code (known finding KF8; U9 proves the corollary for every whitespace prefix WITHOUT '\n')
+        for p in [" ", "\t", "  \t", "\r", " \r ", "\u{3000}", "\n", " \n "] {
             let ind = indent(s, p);
             let d = dedent(&ind);
             if d != got {
-                return Err(format!("dedent(indent({:?}, {:?})) = {:?} != dedent = {:?}", s, p, d, got));
+                let class = if p.contains('\n') { "[class=KF8-prefix-contains-line-break] " } else { "" };
+                return Err(format!("{}dedent(indent({:?}, {:?})) = {:?} != dedent = {:?}", class, s, p, d, got));
             }
         }
     }
@@ -404,7 +407,19 @@ pub fn a4_std_models(c: &StrCase) -> Outcome {
     if real != lines_b(b) {
         return Err(format!("str::lines({:?}) = {:?}, the model gives {:?}", s, real, lines_b(b)));
     }
-    // --- U9's axiom lines_is_split_term: without a carriage return, str::lines is split_terminator('\n')
+    // --- U9's axiom lines_model, literally: str::lines is lines_c — the '\n'-separated pieces; a piece terminated by '\n' loses one
+    // '\r' directly before it; the unterminated last piece is kept as it is (CR included) and dropped when empty
+    {
+        let p: Vec<&str> = s.split('\n').collect();
+        let k = p.len();
+        let n = if p[k - 1].is_empty() { k - 1 } else { k };
+        let model: Vec<&str> = (0..n).map(|i| if i + 1 < k { p[i].strip_suffix('\r').unwrap_or(p[i]) } else { p[i] }).collect();
+        let ls: Vec<&str> = s.lines().collect();
+        if model != ls {
+            return Err(format!("str::lines({:?}) = {:?} but the model lines_c gives {:?}", s, ls, model));
+        }
+    }
+    // --- ... hence (U9's lemma lines_is_split_term) without a carriage return str::lines is split_terminator('\n')
     if !s.contains('\r') {
         let st: Vec<&str> = s.split_terminator('\n').collect();
         let ls: Vec<&str> = s.lines().collect();
